@@ -79,6 +79,9 @@ func sizePick(rng *hx.Rng) int {
 	}
 }
 
+// wsPool: contents of earlier out-of-line identity-encoded text leaves (see GenLeaf)
+var wsPool [][]byte
+
 func GenLeaf(rng *hx.Rng) *Node {
 	n := &Node{}
 	size := sizePick(rng)
@@ -94,6 +97,28 @@ func GenLeaf(rng *hx.Rng) *Node {
 		if rng.Chance(15) {
 			n.Filename = rng.Pick([]string{"notes.txt", "read me.txt", "a(b).txt"})
 			n.Disposition = rng.Pick([]string{"attachment", "inline"})
+		}
+		if encClass(n.CTE) == "identity" {
+			// white-space twins: the content of an earlier out-of-line leaf with blank octets added in front or behind (more
+			// than one final line break): another content, to be stored and returned as such
+			if len(wsPool) > 0 && rng.Chance(10) {
+				p := wsPool[rng.Intn(len(wsPool))]
+				switch rng.Intn(4) {
+				case 0:
+					n.Content = append([]byte("\r\n"), p...)
+				case 1:
+					n.Content = append([]byte("  "), p...)
+				case 2:
+					n.Content = append(append([]byte(nil), p...), []byte("\r\n\r\n")...)
+				default:
+					n.Content = append(append([]byte(nil), p...), []byte(" \r\n \r\n")...)
+				}
+				if n.Filename == "" {
+					n.Filename, n.Disposition = "twin.txt", "attachment"
+				}
+			} else if (len(n.Content) > 1024 || n.Filename != "") && len(n.Content) > 4 && len(wsPool) < 64 {
+				wsPool = append(wsPool, n.Content)
+			}
 		}
 	} else {
 		n.CType = rng.Pick(binTypes)
